@@ -1,0 +1,30 @@
+//go:build verif
+
+package descriptor
+
+// Contracts checked by /verif (govc). Comment-only file; not part of normal builds.
+
+// C16: platform selection over a descriptor list (no artifact/annotation filter requested).
+//   runnable:        the chosen entry beats the zero platform (by lemma better-implies-compatible
+//                    that means the requested platform can run it) and is an entry of the list
+//   found-if-exists: ErrNotFound only if no listed entry beats the zero platform (for a request
+//                    with OS and architecture set: no compatible entry exists, lemma found-if-exists)
+//   best:            no listed entry is ranked strictly better than the chosen one (conditional on
+//                    the OS-version comparison being an order, see lemma better-transitive)
+//@ func DescriptorListSearch(dl, opt) (ret, err)
+//@   prop C16
+//@   requires opt.ArtifactType == "" && opt.SortAnnotation == "" && len(opt.Annotations) == 0
+//@   requires opt.Platform != nil
+//@   let n0 = len(dl)
+//@   let dl0 = dl
+//@   loop 0 (d)
+//@     invariant index: -1 <= $idx && $idx < len(dl) && dl == dl0 && comp != nil && $fromNew(comp.host)
+//@     invariant found-runnable: found ==> $compat(comp.host, retPlat)
+//@     invariant found-beats-zero: found && comp.host.OS != "" && comp.host.Architecture != "" ==> $better(comp.host, retPlat, platform.Platform{})
+//@     invariant found-is-entry: found ==> exists(j, 0, $idx + 1, dl[j].Platform != nil && *dl[j].Platform == retPlat && dl[j] == ret)
+//@     invariant not-found-none: !found ==> retPlat == platform.Platform{} && forall(k, 0, $idx + 1, dl[k].Platform == nil || !$better(comp.host, *dl[k].Platform, platform.Platform{}))
+//@     invariant best-so-far: found && $semcmpOrder() && comp.host.OS != "" && comp.host.Architecture != "" ==> forall(k, 0, $idx + 1, dl[k].Platform == nil || !$better(comp.host, *dl[k].Platform, retPlat))
+//@   ensures runnable: err == nil && n0 > 0 ==> $compat(comp.host, retPlat)
+//@   ensures chosen-is-entry: err == nil && n0 > 0 ==> exists(j, 0, n0, dl0[j].Platform != nil && *dl0[j].Platform == retPlat && dl0[j] == ret)
+//@   ensures found-if-exists: err != nil && n0 > 0 ==> forall(k, 0, n0, dl0[k].Platform == nil || !$better(comp.host, *dl0[k].Platform, platform.Platform{}))
+//@   ensures best: err == nil && n0 > 0 && $semcmpOrder() && comp.host.OS != "" && comp.host.Architecture != "" ==> forall(k, 0, n0, dl0[k].Platform == nil || !$better(comp.host, *dl0[k].Platform, retPlat))
